@@ -25,8 +25,9 @@ SPEC = {
         'ring order equals insertion order (pointer arithmetic), sortedvalues/__reversed__ arithmetic, value-level '
         'equality with the list model for every history.'
         ' T26: __eq__ takes no per-key decision on a None-defaulted .get() result. T17.init: the constructor loads keyword arguments through update (single values), not update_extend.'
-        ' T27: consumers of the order of all pairs (__eq__ of two OMDs, __getstate__, copy, key-less poplast, popitem) enumerate through the all-pairs view (multi=True / the ring), never the per-key view. T28: unlink statements of the ring are well-formed.'),
-    'decided': ['pair-view consumption', 'splice shape', 'no presence decision on .get() None', 'constructor kwargs delegation', 'T1 override closure', 'T2 lock-step of value lists and cells', 'T3 one-pass arguments',
+        ' T27: consumers of the order of all pairs (__eq__ of two OMDs, __getstate__, copy, key-less poplast, popitem) enumerate through the all-pairs view (multi=True / the ring), never the per-key view. T28: unlink statements of the ring are well-formed.'
+        ' T29: the padding of the pairwise OMD comparison is a unique sentinel. T19p/T9.consume: update/update_extend read and feed every source they accept. T14.default: sentinel-default protocol of getlist/pop/popall/poplast.'),
+    'decided': ['sentinel padding in __eq__', 'no dropped source', 'sentinel-default protocol', 'pair-view consumption', 'splice shape', 'no presence decision on .get() None', 'constructor kwargs delegation', 'T1 override closure', 'T2 lock-step of value lists and cells', 'T3 one-pass arguments',
                 'T4 no discarded comparison', 'T5 copy protocol', 'T8 observer purity / no stored list leaked',
                 'T18 clear resets everything', 'T23 first-seen idiom'],
     'declined': ['ring pointer arithmetic / order of iteration', 'reads == list model for every history'],
